@@ -205,6 +205,8 @@ def main():
                     merged["counters"][k] = merged["counters"].get(k, 0) + v
             for v in rep.get("violations", []):
                 v = dict(v)
+                if "only_keys" in r and not re.fullmatch(r["only_keys"], v["key"]):
+                    continue
                 if "only_keys" in chk and not re.fullmatch(chk["only_keys"], v["key"]):
                     merged["counters"]["violations_of_other_properties_ignored"] = merged["counters"].get("violations_of_other_properties_ignored", 0) + 1
                     continue
